@@ -2,7 +2,7 @@
   PV.Model.KexIO — line protocol over the key-exchange model (shared by Driver/C06 and Driver/C08).
 
   Request:
-    kex <engine> <role> <mode> <lv> <rv> <lk> <rk> <hostkey> <algo> <x> <verify> <modulus> <sid> <pkt>*
+    kex <engine> <role> <mode> <lv> <rv> <lk> <rk> <hostkey> <algo> <x> <verify> <modulus> <sid> <hostkey0> <pkt>*
       engine  : grp:<P>:<G> | gex | gexold | nist | c25519       (numbers in decimal)
       role    : c | s
       mode    : gate (packets pass Transport.run's _expected_packet gate) | raw (parse_next directly)
@@ -11,8 +11,9 @@
       verify  : toy | yes | no      (outcome of Transport._verify_key)
       modulus : none | <g>:<p>      (what the moduli pack returns)
       sid     : none | <hex>        (transport.session_id before the exchange: none = first exchange)
+      hostkey0: none | <hex>        (transport.host_key blob before the exchange: the key of an earlier exchange)
       pkt     : <ptype>:<hex body>:<x>
-    Reply: `<effect> … | <ok|ssh|value|type> | <expected types, comma separated or -> | <session_id afterwards>`
+    Reply: `<effect> … | <ok|ssh|value|type> | <expected types, comma separated or -> | <session_id afterwards> | <host_key afterwards>`
   Request:  conn <hostkey none|name:blob> <server name:blob> <start_client ok 0|1> <pkey><password><gss_auth><gss_kex>
             → Transport.connect after the key exchange: raised | auth:<gssmic|gsskeyex|publickey|password> | none
   Request:  kh <sid hex|none> (<K>:<H hex>)*   → `_set_K_H` sequence: `<K|none> <H|none> <sid|none>`
@@ -123,7 +124,7 @@ def step (line : String) : String :=
         { hostkey := hk, pkey := a == '1', password := b == '1', gssAuth := c == '1', gssKex := d == '1' }
         (ok == "1") srv)
     | _, _, _ => "bad-op"
-  | "kex" :: en :: role :: mode :: lv :: rv :: lk :: rk :: hk :: algo :: x :: vf :: md :: sid :: pkts =>
+  | "kex" :: en :: role :: mode :: lv :: rv :: lk :: rk :: hk :: algo :: x :: vf :: md :: sid :: hk0 :: pkts =>
     match parseEngine en, ofHex? lv, ofHex? rv, ofHex? lk, ofHex? rk, ofHex? hk, ofHex? algo with
     | some (eng, old), some lv, some rv, some lk, some rk, some hk, some algo =>
       match x.toNat?, parseVerify algo vf, parseModulus md, pkts.mapM parsePkt with
@@ -132,6 +133,7 @@ def step (line : String) : String :=
         if role != "c" && role != "s" then "bad-op"
         else if mode != "gate" && mode != "raw" then "bad-op"
         else if sid0.isNone then "bad-op"
+        else if hk0 != "none" && (ofHex? hk0).isNone then "bad-op"
         else
           let c : Env := { serverMode := role == "s", localVersion := lv, remoteVersion := rv,
                            localKexInit := lk, remoteKexInit := rk, hostKey := hk, hash := toyHash,
@@ -139,7 +141,8 @@ def step (line : String) : String :=
           let s0 := beginSess c eng old x
           let s := if mode == "gate" then pkts.foldl (Sess.feed c eng) s0 else pkts.foldl (rawFeed c eng) s0
           let t : TSt := ({ sessionId := sid0.getD none } : TSt).apply s.trace
-          showSess s ++ " | " ++ showOptBytes t.sessionId
+          let prevKey : Option Bytes := if hk0 == "none" then none else ofHex? hk0
+          showSess s ++ " | " ++ showOptBytes t.sessionId ++ " | " ++ showOptBytes (publishedKey prevKey s.trace)
       | _, _, _, _ => "bad-op"
     | _, _, _, _, _, _, _ => "bad-op"
   | "kh" :: sid :: khs =>
